@@ -38,7 +38,7 @@ THEOREMS = [
     for n in (
         "table_rows_ok fixed_branch_width fixed_branch_width_rat fixed_branch_width_tables "
         "sscanf_parses_field sscanf_parses_recognised fixed_branch_accuracy fixed_precision_maximal "
-        "sci_consts_ok sci_width_accuracy sci_width small_branch_pos small_branch_neg_partial last_branches tables_format_ok format_float_total_partial "
+        "sci_consts_ok sci_width_accuracy sci_width small_branch_pos small_branch_neg last_branches tables_format_ok format_float_total "
         "carry_guard_sound int_field_roundtrip blank_field_roundtrip line_roundtrip "
         "card_line_roundtrip_partial str_field_roundtrip card_fields_ok card_roundtrip_small card_roundtrip_large card_roundtrip_comma card_fixed_comma_agree"
     ).split()
@@ -74,29 +74,32 @@ ASSUMPTIONS = [
     "the Lean theorems cover all fractions with 1e-999 <= |x| < 1e999 (exponents of at most three digits)",
 ]
 PARTIAL = (
-    "proved at full strength (all fractions, not only doubles): sscanf_parses_field / sscanf_parses_recognised "
-    "(grammar of emitted fields, d->e and sign-as-exponent rewriting); per branch of format_float8/16 the exact "
-    "text, width, read-back and accuracy: fixed_branch_width*, fixed_branch_accuracy (end to end through strip / "
-    "replace / nas_sscanf, |field-x| <= 1/2 10^-p), fixed_precision_maximal, sci_width_accuracy + sci_width + "
-    "sci_consts_ok for _format_scientific8/16 and format_double16 (two-stage bound (1/2 10^-P + 1/2 10^-q) 10^E), "
-    "small_branch_pos, last_branches, table_rows_ok, carry_guard_sound; cards: card_roundtrip_small / "
-    "card_roundtrip_large (any number of continuation lines, blank padding, trailing blanks, the * in column 73, "
-    "the even-line padding), card_roundtrip_comma (lines of any length) and card_fixed_comma_agree, "
-    "int/blank/str field round trips, card_fields_ok.  Still partial: (1) small_branch_neg_partial assumes "
-    "|x| > 1/2 10^-p (the one double between the literal 5e-7 / 5e-15 and its nearest double, where the code relies on "
-    "float(field1) == float('-0.') being false, is tied by correspondence only); (2) format_float_total_partial (the whole of "
-    "format_float8/16 through the if-chain dispatch: width, grammar, read-back for every fraction in range, side "
-    "conditions tables_format_ok by decide on the regenerated tables) inherits that exclusion and states no "
-    "accuracy of its own (the per-branch theorems do); (3) that the mixed branch picks the more precise alternative (float(field1) == float(field2)) is not "
-    "proved - each alternative has its own proved bound; (4) a comma-form writer does not exist in pyyeti: "
-    "card_roundtrip_comma is about the specification text commaText; card-name matching is proved for one-card "
-    "files (multi-card files, prefixes and foreign lines are correspondence only)"
+    "proved at full strength (all fractions that are zero or have 1e-999 <= |x| < 1e999, so every finite double): "
+    "sscanf_parses_field / sscanf_parses_recognised (grammar of emitted fields, d->e and sign-as-exponent "
+    "rewriting); format_float_total (format_float8/16 as a whole through the if-chain dispatch: exactly W "
+    "characters, a field of the grammar, read back as a real; side conditions tables_format_ok by decide on the "
+    "regenerated tables); per branch the exact text and the accuracy: fixed_branch_width*, fixed_branch_accuracy "
+    "(end to end through strip / replace / nas_sscanf, |field-x| <= 1/2 10^-p), fixed_precision_maximal, "
+    "sci_width_accuracy + sci_width + sci_consts_ok for _format_scientific8/16 and format_double16 (two-stage "
+    "bound (1/2 10^-P + 1/2 10^-q) 10^E), small_branch_pos, small_branch_neg (incl. the double below the literal "
+    "5e-7 / 5e-15 where float(field1) == float('-0.') is false), last_branches, table_rows_ok, "
+    "carry_guard_sound; cards: card_roundtrip_small / card_roundtrip_large (any number of continuation lines, "
+    "blank padding, trailing blanks, the * in column 73, the even-line padding), card_roundtrip_comma (lines of "
+    "any length) and card_fixed_comma_agree, int/blank/str field round trips, card_fields_ok.  Still partial: "
+    "(1) format_float_total states width, grammar and read-back; the accuracy bounds are per branch and are not "
+    "re-assembled into one statement over the dispatch; (2) that the mixed branch picks the more precise "
+    "alternative (float(field1) == float(field2)) is not proved - each alternative has its own proved bound; "
+    "(3) a comma-form writer does not exist in pyyeti: card_roundtrip_comma is about the specification text "
+    "commaText; (4) card-name matching is proved for one-card files (multi-card files, name prefixes and foreign "
+    "lines are correspondence only); card_line_roundtrip_partial is kept for the record (superseded by "
+    "card_roundtrip_small)"
 )
 MANIFEST = {
     "level_text": "proof",
     "level_note": "Lean theorems per branch (exact text, width, read-back, accuracy over all fractions) and for "
-                  "cards (8/16/comma forms, any number of lines); multi-card files and the boundary "
-                  "double of the negative mixed branch are tied by translator + exact correspondence",
+                  "cards (8/16/comma forms, any number of lines), format_float8/16 as a whole for width, grammar and "
+                  "read-back; multi-card files and the choice between the two alternatives of the mixed "
+                  "branch are tied by exact correspondence",
     "technique": "Lean 4 model + ast translator (NasFloatTables) + differential correspondence",
 }
 
